@@ -274,6 +274,18 @@ theorem C06_on_loaded_consistent_input (D : Dataset) (hc : D.Consistent) :
       (∀ a d, (hogsMap H a d).ndup = ((hogsMap H a d).dupl.map fun e => e.2.length - 1).sum) :=
   Pyham.C06_on_loaded_consistent_input D hc
 
+/-- **gained = the family is younger than the ancestral genome**: in the comparison of `d` with an ancestor `a`, a gene of `d`
+    is GAINED iff the root of its family (the taxon of its top-level HOG, `Loc.rootTx`; the gene's own taxon for a singleton)
+    lies strictly below `a` -/
+theorem C06_gained_iff_family_younger (H : Ham) (hw : H.WFc) (a d : Taxon) (had : a <:+ d) (hne : a ≠ d) (n : Node) :
+    n ∈ (hogsMap H a d).gain ↔ ∃ r ∈ H.nodesAt d, r.node = n ∧ ¬ (r.rootTx <:+ a) :=
+  Pyham.C06_gained_iff_family_younger H hw a d had hne n
+
+/-- `Loc.rootTx` is the taxon of the outermost ancestor (the top-level HOG), or of the member itself when it has none -/
+theorem C06_rootTx_is_top (H : Ham) (hw : H.WFc) (r : Loc) (hr : r ∈ H.allLocs) :
+    (r.anc = [] → r.rootTx = r.node.tx) ∧ (∀ top, r.anc.getLast? = some top → top.tx = r.rootTx) :=
+  rootTx_is_top H hw r hr
+
 /-! ## C07 — comparisons compose along a lineage -/
 
 theorem C07_compose (H : Ham) (hw : H.WFc) (a b : Taxon) (hab : a <:+ b) (hne : a ≠ b)
